@@ -797,3 +797,88 @@ fn c03_reader_partial_fragment_hb(7) {
   rig.finish();
 }
 }
+
+/// Same situation with a CONCRETE prefix (which of the three fragments arrived is fixed per
+/// instance) and a symbolic HEARTBEAT(1..last, final flag free): "concrete prefix + one symbolic
+/// step".  The glue of handle_heartbeat_msg that combines missing_seqnums with
+/// is_frag_partially_received is what this decides.
+fn partial_fragment_then_hb(got: u32) {
+  let mut rig = make_rig(reliable_qos(), false, reader_guid());
+  rig.match_writer(1, &reliable_qos());
+  let st = rig.mr_state(1, None);
+  let flags = BitFlags::<DATAFRAG_Flags>::from_flag(DATAFRAG_Flags::Endianness);
+  let d = datafrag(1, 1, got);
+  rig.reader.handle_datafrag_msg(&d, flags, &st);
+  core::mem::forget(d);
+  let s0 = rig.take_sent();
+  assert!(s0.n_acks == 0 && s0.n_nackfrags == 0, "DATAFRAG answered");
+  let last = vk::range_i64(1, 3);
+  let fin: bool = vk::any();
+  let hb = heartbeat(1, 1, last, 1);
+  rig.reader.handle_heartbeat_msg(&hb, fin, &st);
+  let sent = rig.take_sent();
+  // SN 1 is missing (only one of its fragments arrived): the HEARTBEAT must be answered
+  assert!(sent.n_acks == 1, "HEARTBEAT not answered by exactly one ACKNACK");
+  let a = sent.acks[0].unwrap();
+  assert!(a.base == 1, "ACKNACK base is not the sample of which only one fragment arrived");
+  let mut s = 2i64;
+  while s <= 3 {
+    assert!(a.requests(s - a.base) == (s <= last), "wholly missing samples of the advertised range not requested exactly");
+    s += 1;
+  }
+  assert!(!a.requests(0) || sent.n_nackfrags == 0, "partially received sample requested twice");
+  assert!(sent.n_nackfrags == 1, "no NACKFRAG for the partially received sample");
+  let nf = sent.nackfrags[0].unwrap();
+  assert!(nf.writer_sn == 1);
+  let mut f = 1u32;
+  while f <= 3 {
+    let requested = f >= nf.base && nf.requests(f - nf.base);
+    assert!(requested == (f != got), "NACKFRAG does not name exactly the missing fragments");
+    f += 1;
+  }
+  assert!(nf.count != a.count, "ACKNACK and NACKFRAG share a count");
+  vk_cover!(last == 3, "three advertised");
+  core::mem::forget(sent);
+  core::mem::forget(st);
+  rig.finish();
+}
+reader_harness! {
+fn c03_reader_partial_fragment_g1_hb(7) { partial_fragment_then_hb(1) }
+}
+reader_harness! {
+fn c03_reader_partial_fragment_g2_hb(7) { partial_fragment_then_hb(2) }
+}
+reader_harness! {
+fn c03_reader_partial_fragment_g3_hb(7) { partial_fragment_then_hb(3) }
+}
+
+// ------------------------------------------------------------------ extreme numeric fields (C03 "any first/last", C06)
+reader_harness! {
+/// C06 on the real Reader: one HEARTBEAT whose firstSN / lastSN sit at the top of the i64 range
+/// (what a hostile peer can put on the wire), fresh matched proxy.  No panic, and the answer is
+/// still truthful: base == first, only advertised SNs requested.
+fn c03_reader_hb_extreme_top(7) {
+  let mut rig = make_rig(reliable_qos(), false, reader_guid());
+  rig.match_writer(1, &reliable_qos());
+  let a = vk::range_i64(0, 3);
+  let w = vk::range_i64(0, 3);
+  vk::assume(w <= a);
+  let first = i64::MAX - a;
+  let last = first + w; // <= i64::MAX
+  let fin: bool = vk::any();
+  let hb = heartbeat(1, first, last, 1);
+  let st = rig.mr_state(1, None);
+  rig.reader.handle_heartbeat_msg(&hb, fin, &st);
+  let sent = rig.take_sent();
+  assert!(sent.n_acks == 1, "HEARTBEAT advertising missing samples produced no single ACKNACK");
+  let ack = sent.acks[0].unwrap();
+  assert!(ack.base == first, "ACKNACK base is not the lowest missing SN");
+  assert!(ack.requests(0), "lowest missing SN not requested");
+  assert!(ack.requested_count() as i64 <= w + 1, "more SNs requested than advertised");
+  vk_cover!(last == i64::MAX, "lastSN = i64::MAX");
+  vk_cover!(a == 3 && w == 0, "single SN below the top");
+  core::mem::forget(sent);
+  core::mem::forget(st);
+  rig.finish();
+}
+}
